@@ -109,6 +109,13 @@ def generate(rng, tier, stats):
     out = [lattice_case(pt) for pt in pts]
     # directed: the points where only the restart record holds the promotion back, with each shape of the replica set's own
     # Canary condition (a reused replica set carries one that is younger than its restart record)
+    # ... and the points where only a pause holds it back, for every pause source (the annotation next to a Canary-Paused
+    # condition left False by an earlier pause is the one a first-match reader gets wrong)
+    for pause in ("annotation", "condition", "annotation+oldcond"):
+        for nr in (None, 300):
+            for unpause in (False, True):
+                for stale in (False, True):
+                    out.append(lattice_case(("auto", 1, nr, 1 if nr else None, pause, unpause, None, False, True, stale)))
     for kind in (0, 1, 2, 3):
         for age in (0, 1):
             for unpause in (False, True):
